@@ -75,6 +75,37 @@ def const_table_ranges(prog, src):
     return out
 
 
+_DBG_EXP = re.compile(r"^bang:debug_assert(_eq|_ne)?:")
+
+
+def debug_only_blocks(body):
+    """blocks of `body` that run only inside a debug_assert!: the macro expands to `if cfg!(debug_assertions) { assert!(..) }`; in MIR the
+    flag is a constant assigned by a statement of the macro's own expansion and switched on at once, so the region is everything
+    dominated by the taken target of that switch (the join after the macro is also reached from the other edge)."""
+    flags = {}
+    for bb, blk in enumerate(body.blocks):
+        for st in blk["stmts"]:
+            if st["k"] == "assign" and not st["place"]["p"] and _DBG_EXP.match(st.get("expk") or "") and st["rv"]["k"] == "use" \
+                    and st["rv"]["a"].get("k") == "const" and st["rv"]["a"]["c"].get("ty") == "bool":
+                flags.setdefault(st["place"]["l"], []).append(bb)
+    if not flags:
+        return set()
+    cfg = body.cfg()
+    out = set()
+    for bb, blk in enumerate(body.blocks):
+        t = blk["term"]
+        if t["k"] != "switch" or t["d"].get("k") not in ("copy", "move") or t["d"]["place"]["p"]:
+            continue
+        l = t["d"]["place"]["l"]
+        if flags.get(l) != [bb] or len(body.defs_of(l)) != 1 or t.get("vals") != ["0"]:
+            continue
+        entry = t["otherwise"]
+        if entry in t["targets"] or cfg.pred[entry] != [bb]:
+            continue
+        out |= {x for x in cfg.reach if cfg.dominates(entry, x)}
+    return out
+
+
 def _sole_caller_roots(prog, b):
     from . import inline
     root = b.closure_root or b.path
@@ -117,6 +148,7 @@ def run(ctx, rule, entries, *, lossy=False, entry_facts=None, lemmas=None, trust
     per_body = {}
     # closures written inside debug_assert!(..) arguments run only in debug builds, as part of the assertion
     dbg_closures = set()
+    dbg_regions = {}
     for p in dyn:
         b = prog.body(p)
         if b is None:
@@ -125,6 +157,12 @@ def run(ctx, rule, entries, *, lossy=False, entry_facts=None, lemmas=None, trust
             rv = s_["rv"]
             if rv["k"] == "agg" and rv.get("ak") == "closure" and re.match(r"^bang:debug_assert(_eq|_ne)?:", s_.get("expk") or ""):
                 dbg_closures.add(rv.get("def"))
+        region = debug_only_blocks(b)
+        dbg_regions[p] = region
+        for bb_ in region:
+            for s_ in b.blocks[bb_]["stmts"]:
+                if s_["k"] == "assign" and s_["rv"]["k"] == "agg" and s_["rv"].get("ak") == "closure" and s_["rv"].get("def"):
+                    dbg_closures.add(s_["rv"]["def"])
     for p in sorted(dyn):
         b = prog.body(p)
         if b is None or (skip and skip(b)):
@@ -135,6 +173,12 @@ def run(ctx, rule, entries, *, lossy=False, entry_facts=None, lemmas=None, trust
                 ctx.oblig(True, "DEBUGCHK")
             continue
         obs = [o for o in obligations.collect(b, lossy=lossy, unsafe=unsafe) if not o.exp]
+        reg = dbg_regions.get(p) or ()
+        if reg:
+            for o in obs:
+                if o.bb in reg:
+                    ctx.oblig(True, "DEBUGCHK")
+            obs = [o for o in obs if o.bb not in reg]
         if kinds:
             obs = [o for o in obs if o.kind in kinds]
         if lossy_filter:
